@@ -289,7 +289,22 @@ class Gen:
                     if low in ("generation", "usage"):
                         pool = ["r1", "r2"]
                     kw[pn] = self.ident(used, c, ns, pool)
-            m(**kw)
+            if kw.get("identifier") is not None and "other_attributes" in kw and self.use(used, "repeat-id", 0.25):
+                # the same statement again (same kind, same identifier), with and without attributes, in both orders
+                first = dict(kw)
+                second = dict(kw)
+                if rng.random() < 0.6:
+                    first["other_attributes"] = []
+                if rng.random() < 0.4:
+                    second["other_attributes"] = []
+                else:
+                    second["other_attributes"] = self.attrs(used, ns, has_default=c.get_default_namespace() is not None)
+                m(**first)
+                m(**second)
+                if rng.random() < 0.3:
+                    m(**first)
+            else:
+                m(**kw)
 
 
 def documents(seed, count, features=None, max_records=5):
@@ -361,5 +376,5 @@ def classify(before, after):
 
 def exc_class(e):
     import re
-    msg = re.sub(r"'[^']*'|\"[^\"]*\"", "*", str(e).split("\n")[0])
-    return "raises:%s:%s" % (type(e).__name__, msg[:60])
+    msg = re.sub(r"'[^']*'|\"[^\"]*\"", "*", str(e).split("||")[0].split("\n")[0].strip())
+    return "raises:%s:%s" % (type(e).__name__, msg[:90])
